@@ -755,12 +755,21 @@ func (ctx Ctx) callExpr(s *ast.CallExpr) coq.Expr {
 	if ctx.isBuiltinIdent(s.Fun, "append") {
 		elemTy := sliceElem(ctx.typeOf(s.Args[0]).Underlying())
 		if s.Ellipsis == token.NoPos {
-			return coq.NewCallExpr(coq.GallinaIdent("SliceAppend"),
-				ctx.coqTypeOfType(s, elemTy),
-				ctx.expr(s.Args[0]),
-				ctx.expr(s.Args[1]))
+			if len(s.Args) < 2 {
+				ctx.unsupported(s, "append without an element")
+			}
+			// append(s, a, b, ...) appends the elements one after the other
+			var e coq.Expr = ctx.expr(s.Args[0])
+			for _, elem := range s.Args[1:] {
+				e = coq.NewCallExpr(coq.GallinaIdent("SliceAppend"),
+					ctx.coqTypeOfType(s, elemTy), e, ctx.expr(elem))
+			}
+			return e
 		}
 		// append(s1, s2...)
+		if isString(ctx.typeOf(s.Args[1]).Underlying()) {
+			ctx.unsupported(s, "append of the bytes of a string")
+		}
 		return coq.NewCallExpr(coq.GallinaIdent("SliceAppendSlice"),
 			ctx.coqTypeOfType(s, elemTy),
 			ctx.expr(s.Args[0]),
